@@ -327,6 +327,39 @@ func TestFixedScenarios(t *testing.T) {
 			"s1.p":   {gen.NCall("probe", gen.NStr("s1"), id("k1")), gen.NIf([]*gen.Node{gen.NBool(true)}, [][]*gen.Node{{gen.NCall("exit")}}, nil, false), gen.NCall("probe", gen.NStr("never"))},
 		}),
 	}
+	// a callee that assigns nothing and only reads: it reads the point, never the caller's variables - also the caller's
+	// block and loop variables that are alive at the call
+	cases = append(cases,
+		mk(map[string][]*gen.Node{
+			"main.p": {gen.NSet("v", gen.NInt(1)), gen.NSet("k1", gen.NStr("caller's")), gen.NForIn("w", gen.NList(gen.NInt(7)), []*gen.Node{gen.NIf([]*gen.Node{gen.NBool(true)}, [][]*gen.Node{{gen.NSet("blk", gen.NInt(3)), gen.NCall("use", gen.NStr("s1.p"))}}, nil, false)}), probeAll("caller-after")},
+			"s1.p":   {gen.NCall("probe", gen.NStr("callee-reads"), id("v"), id("w"), id("k1"), id("blk")), gen.NCall("use", gen.NStr("s2.p"))},
+			"s2.p":   {gen.NIf([]*gen.Node{gen.NBin("==", id("k1"), gen.NInt(1))}, [][]*gen.Node{{gen.NCall("probe", gen.NStr("deep-sees-the-point"))}}, []*gen.Node{gen.NCall("probe", gen.NStr("deep-sees"), id("k1"), id("v"))}, true), gen.NCall("add_key", id("seen"), id("k1"))},
+		}),
+		// a for-in over a map whose body fails - directly, in a nested block, through a callee: the error reaches the caller
+		mk(map[string][]*gen.Node{
+			"main.p": {gen.NCall("probe", gen.NStr("before")), gen.NForIn("k", gen.NMap(gen.NStr("only"), gen.NInt(1)), []*gen.Node{gen.NCall("probe", gen.NStr("in-loop"), id("k")), gen.NCall("perr")}), probeAll("never")},
+		}),
+		mk(map[string][]*gen.Node{
+			"main.p": {gen.NCall("use", gen.NStr("s1.p")), probeAll("never")},
+			"s1.p":   {gen.NForIn("k", gen.NMap(gen.NStr("only"), gen.NInt(1)), []*gen.Node{gen.NIf([]*gen.Node{gen.NBool(true)}, [][]*gen.Node{{gen.NCall("use", gen.NStr("s2.p"))}}, nil, false)}), gen.NCall("probe", gen.NStr("never-in-s1"))},
+			"s2.p":   {gen.NSet("zz", gen.NBin("+", gen.NInt(1), gen.NStr("x")))},
+		}),
+		mk(map[string][]*gen.Node{
+			"main.p": {gen.NForIn("k", id("mm"), []*gen.Node{gen.NCall("probe", gen.NStr("k"), id("k"))}), gen.NSet("mm", gen.NMap(gen.NStr("a"), gen.NList(gen.NInt(1)))), gen.NForIn("k", id("mm"), []*gen.Node{gen.NSet("q", gen.NIndex(id("mm"), id("k"), gen.NInt(5)))}), probeAll("never")},
+		}),
+		// a callee without statements (a comment, blank lines, empty statements), then chains of ordinary callees whose
+		// callers go on using their variables
+		mk(map[string][]*gen.Node{
+			"main.p": {gen.NSet("v", gen.NInt(1)), gen.NCall("use", gen.NStr("s1.p")), gen.NCall("use", gen.NStr("s1.p")), probeAll("after-empty")},
+			"s1.p":   {},
+		}),
+		mk(map[string][]*gen.Node{
+			"main.p": {gen.NSet("v", gen.NInt(1)), gen.NCall("use", gen.NStr("s1.p")), gen.NSet("v", gen.NBin("+", id("v"), gen.NInt(1))), probeAll("top-after")},
+			"s1.p":   {gen.NSet("w", gen.NInt(10)), gen.NCall("use", gen.NStr("s2.p")), gen.NSet("w", gen.NBin("+", id("w"), gen.NInt(1))), probeAll("mid-after")},
+			"s2.p":   {gen.NSet("v", gen.NStr("leaf")), gen.NCall("use", gen.NStr("s3.p")), probeAll("leaf-after")},
+			"s3.p":   {},
+		}),
+	)
 	// caller and callee decode the same document from the shared point: each has a document of its own
 	for _, doc := range []string{"{\"n\": 0, \"l\": [1, 2]}", "[1, [2, 3]]"} {
 		first := gen.NStr("n")
